@@ -40,6 +40,17 @@ STYLES = {
         '`self.attr` read once into a local; dataclass fields accessed via `getattr` only with literal names; `cls(...)` <-> `ClassName(...)` in the same class.'),
 }
 
+STYLES['broad'] = (
+    'Apply 18 to 24 independent, realistic, BEHAVIOUR-PRESERVING edits, and spread them over AS MANY DIFFERENT FUNCTIONS of the listed files AS POSSIBLE (touch small helpers, '
+    'property methods, validation code, rarely used branches and option handling too - at most two edits per function). Mix freely: renaming, reordering of independent statements, '
+    'commutative operand swaps, in-place <-> out-of-place on fresh locals, hoisted / inlined temporaries, keyword <-> positional, method <-> function form, None-indexing <-> expand_dims '
+    '<-> reshape, keepdims=True <-> [..., None], guard clauses, merged / split conditionals, conditional expressions, extracted or inlined private helpers (also nested functions and '
+    'lambdas), loops as for / while / zip / enumerate / comprehension / vectorised assignment, transposes (swapaxes / moveaxis / transpose / .T / einsum letter order), einsum <-> matmul '
+    '/ @ / broadcasting / np.sum of a product, clip <-> maximum / minimum <-> np.where, x ** 2 <-> x * x <-> np.square, abs(z) ** 2 <-> z.real ** 2 + z.imag ** 2 <-> (z * z.conj()).real, '
+    'np.linalg.norm <-> sqrt of a sum of squares, a / b <-> a * (1 / b) for scalars, algebraically equivalent rearrangements of closed formulas (factor out, expand, common denominator) '
+    'when within 1e-12, shape access via unpacking / indexing / np.shape, named constants, dispatch tables, from-imports and local aliases, assert messages as f-strings, type hints, '
+    'comments. Invent further ones.')
+
 TEMPLATE = '''You are helping to evaluate a static-analysis based verification tool for the Python library fgnt/pb_bss (EM mixture models, beamformers, permutation alignment, masks, metrics). The tool must NOT raise alarms on code whose behaviour is unchanged. Your job is to act as a careful maintainer who REFACTORS code WITHOUT changing behaviour, so that we can test the tool for false alarms.
 
 Work ONLY inside your own scratch git worktree of the library: {wt} (package directory {wt}/pb_bss). Do NOT read or write anything under /verif or /repo. Do not commit. Never use `git stash` (it is shared between worktrees).
